@@ -36,7 +36,7 @@ theorem Realloc.of_sameBut {h h' : Heap} {b : Nat} (sb : SameBut h h' (fun b' _ 
   · intro hm; have := hwf x hm; omega
   · intro e; subst e; exact hb
 
-theorem Realloc.wf {h h' : Heap} {b b' : Nat} (r : Realloc h h' b b') (hwf : ∀ x, x ∈ h.ids → x < h.next)
+theorem Realloc.wf {h h' : Heap} {b b' : Nat} (r : Realloc h h' b b') (_hwf : ∀ x, x ∈ h.ids → x < h.next)
     (hblt : b < h.next) : ∀ x, x ∈ h'.ids → x < h'.next := by
   intro x hx
   by_cases hxn : x < h.next
